@@ -59,9 +59,10 @@ type row struct {
 	Entry      string `json:"entry"` // "start" | "maybe" (MaybeChild, then Start)
 	Calls      int    `json:"calls"` // Start is called this many times in the one process
 	AppCrash   bool   `json:"appCrash"`
-	Hold       bool   `json:"hold"`  // keep the application / the stdin pipe alive until the go command was run
-	HoldN      int    `json:"holdN"` // ... this many times
-	N          int    `json:"n"`     // race / seq: number of starters
+	StartFail  string `json:"startFail"` // "none" | "logdir" | "dbgloop" | "noexe": how the start of the sidecar is made to fail
+	Hold       bool   `json:"hold"`      // keep the application / the stdin pipe alive until the go command was run
+	HoldN      int    `json:"holdN"`     // ... this many times
+	N          int    `json:"n"`         // race / seq: number of starters
 }
 
 type logEntry struct {
@@ -352,6 +353,12 @@ func runRow(t *testing.T, r *row) {
 		b, _ := os.ReadFile(prog)
 		os.WriteFile(fakego, b, 0777)
 	}
+	// the application runs from its own link, so that it can make itself unstartable ("noexe")
+	app := filepath.Join(bin, "app")
+	if err := os.Link(prog, app); err != nil {
+		b, _ := os.ReadFile(prog)
+		os.WriteFile(app, b, 0777)
+	}
 	logPath := filepath.Join(dir, "start.log")
 	var tdir string
 	switch r.CfgVia {
@@ -373,6 +380,14 @@ func runRow(t *testing.T, r *row) {
 			os.WriteFile(filepath.Join(tdir, "mode"), []byte(r.ModeText), 0666)
 		case "directory":
 			os.MkdirAll(filepath.Join(tdir, "mode"), 0777)
+		}
+		switch r.StartFail {
+		case "logdir":
+			// the sidecar's log file cannot be opened: a directory sits in its place
+			os.MkdirAll(filepath.Join(tdir, "debug", "sidecar.log"), 0777)
+		case "dbgloop":
+			// the debug directory cannot be examined: os.Stat fails with ELOOP, not with "does not exist"
+			os.Symlink("debug", filepath.Join(tdir, "debug"))
 		}
 		switch r.Debug {
 		case "dir":
@@ -444,6 +459,9 @@ func runRow(t *testing.T, r *row) {
 	if r.AppCrash {
 		env = append(env, "VERIF_C16_PANIC=1")
 	}
+	if r.StartFail == "noexe" {
+		env = append(env, "VERIF_C16_RMEXE=1")
+	}
 	devnull, _ := os.OpenFile(os.DevNull, os.O_RDWR, 0)
 	defer devnull.Close()
 	stdin := devnull
@@ -500,7 +518,7 @@ func runRow(t *testing.T, r *row) {
 	}
 	var started []int
 	for i := 0; i < n; i++ {
-		pid, err := syscall.ForkExec(prog, []string{prog, "row", strconv.Itoa(r.ID)}, &syscall.ProcAttr{
+		pid, err := syscall.ForkExec(app, []string{app, "row", strconv.Itoa(r.ID)}, &syscall.ProcAttr{
 			Dir: dir, Env: env, Files: []uintptr{stdin.Fd(), devnull.Fd(), devnull.Fd()}})
 		if err != nil {
 			t.Fatalf("row %d: starting prog: %v", r.ID, err)
@@ -613,6 +631,7 @@ func runRow(t *testing.T, r *row) {
 	sort.Strings(wrote)
 	tb, ta := before[tokenPath], after[tokenPath]
 	acquired := tokenAfter == "fresh" && tb != ta
+	freshRemoved := tokenBefore == "fresh" && (tokenAfter != "fresh" || tb != ta)
 	rootExit := -2
 	if len(started) == 1 {
 		if c, ok := exits[started[0]]; ok {
@@ -626,7 +645,7 @@ func runRow(t *testing.T, r *row) {
 		}
 	}
 	rec := rt.M{"kind": r.Kind, "id": r.ID, "marker": r.Marker, "crash": r.Crash, "upload": r.Upload, "mode": r.Mode, "token": r.Token,
-		"localOK": r.LocalOK, "sidecars": sidecars, "uploaders": uploaders, "nested": nested, "unmarked": unmarked, "launched": launched,
+		"localOK": r.LocalOK, "sidecars": sidecars, "uploaders": uploaders, "nested": nested, "unmarked": unmarked, "freshRemoved": freshRemoved, "launched": launched,
 		"acquired": acquired, "wrote": wrote, "tokenBefore": tokenBefore, "tokenAfter": tokenAfter, "changed": changed,
 		"entries": entries, "rootExit": rootExit, "returned": returned, "guards": guards, "timedOut": timedOut,
 		"rootsLogged": rootsLogged, "n": n, "processes": len(exits), "fatal": rootExit != 0 && rootExit != -2}
